@@ -439,12 +439,12 @@ def scratch_dir():
 UNIV = os.path.join(VERIF, "universe")
 
 
-def universe(kind, n, maxe=0, k=3, w=3, l=0, cap=12, scheme="plain", parts=16):
+def universe(kind, n, maxe=0, k=3, w=3, l=0, cap=12, scheme="plain", parts=16, zero=False):
     """Instances (graph + planted flow) enumerated by TLC from spec/Universe.tla.  The result is cached in
     /verif/universe keyed by the parameters and the hash of the generating modules; a changed spec regenerates."""
     os.makedirs(UNIV, exist_ok=True)
     h = spec_hash("Graphs.tla", "Routes.tla", "Problems.tla", "Universe.tla", "Gen_Graphs.tla")
-    name = f"{kind}_n{n}_e{maxe}_k{k}_w{w}_l{l}_c{cap}_{scheme}_{h}.ndjson"
+    name = f"{kind}_n{n}_e{maxe}_k{k}_w{w}_l{l}_c{cap}_{scheme}{'_z' if zero else ''}_{h}.ndjson"
     path = os.path.join(UNIV, name)
     if os.path.exists(path):
         return read_ndjson(path)
@@ -455,7 +455,7 @@ def universe(kind, n, maxe=0, k=3, w=3, l=0, cap=12, scheme="plain", parts=16):
     def one(p):
         env = {"GEN_KIND": kind, "GEN_N": str(n), "GEN_MAXE": str(maxe), "GEN_K": str(k), "GEN_W": str(w),
                "GEN_L": str(l), "GEN_CAP": str(cap), "GEN_SCHEME": scheme, "GEN_PART": str(p),
-               "GEN_PARTS": str(parts), "OUT_FILE": outs[p]}
+               "GEN_PARTS": str(parts), "OUT_FILE": outs[p], "GEN_ZERO": "1" if zero else "0"}
         return run_tlc("Gen_Graphs", "Gen.cfg", env=env, timeout=3000, scratch=sc)
     with ThreadPoolExecutor(max_workers=16) as ex:
         rs = list(ex.map(one, range(parts)))
